@@ -117,6 +117,7 @@ def run(run, replay=None):
     pool = [c for c in cases if len(c['after']) >= 3]
     for k, c in enumerate(rng.sample(pool, min(8, len(pool)))):
         z = copy.deepcopy(c)
+        z['canary_of'] = z['id']
         z['id'] = 'canary-%d' % k
         m = z['after'][0]
         st = [it for it in m['items'] if bytes(it['k']) == b'stats'][0]['v']
